@@ -168,6 +168,7 @@ class Check:
         printing small results), compile it, return (ok, output)."""
         rd = os.path.join(COQ, "run")
         os.makedirs(rd, exist_ok=True)
+        name = f"{name}_p{os.getpid()}"       # several checks (e.g. a mutation run and a clean run) may evaluate at once
         path = os.path.join(rd, name + ".v")
         with open(path, "w") as f:
             f.write("From Coq Require Import ZArith List String Bool.\n")
@@ -187,6 +188,11 @@ class Check:
             os.remove(os.path.join(rd, "." + name + ".aux"))
         except OSError:
             pass
+        if rc == 0:
+            try:
+                os.remove(path)          # case files of successful evaluations are not kept (failed ones are, for debugging)
+            except OSError:
+                pass
         return rc == 0, out
 
     def coq_eval_sharded(self, prefix, imports, bodies, timeout=900):
